@@ -81,3 +81,36 @@ def wpa_body(mc, unicast, akms, version=1, pcount=None, acount=None):
     b += (len(unicast) if pcount is None else pcount).to_bytes(2, "little") + b"".join(unicast)
     b += (len(akms) if acount is None else acount).to_bytes(2, "little") + b"".join(akms)
     return b
+
+
+LADDER = [255, 256, 257, 2304, 2346, 3839, 4095, 4096, 4097, 7935, 7936, 7991, 8191, 8192, 11454, 16383, 16384, 32767, 32768, 65535, 65536, 65537, 70000]
+
+
+def size_ladder(rnd, tier="quick"):
+    """(op line) list: frames whose BODY length sits at and around every size a length field, a cap or a narrowed integer
+    could break at (8-, 12-, 13-, 14-, 15-, 16-bit widths, the 802.11 MSDU / A-MSDU / MPDU limits), as data frames
+    (QoS and not, plain and EAPOL-shaped), and as management frames of every parsable subtype whose element region is
+    made of maximal elements; bare, and a few behind a radiotap header with FCS"""
+    out = []
+    sizes = LADDER if tier != "quick" else [255, 256, 2304, 4096, 7935, 7936, 8192, 16384, 32768, 65535, 65536, 70000]
+    for n in sizes:
+        for qos in (0, 1):
+            hdr = bytes([0x88 if qos else 0x08, 0x00]) + bytes(rnd.getrandbits(8) for _ in range(22 + (2 if qos else 0)))
+            body = bytes(rnd.getrandbits(8) for _ in range(n))
+            out.append("cls 0 " + (hdr + body).hex())
+            llc = bytes([0xaa, 0xaa, 0x03, 0, 0, 0, 0x88, 0x8e])
+            key = bytearray(rnd.getrandbits(8) for _ in range(99))
+            key[5:7] = (0x010a).to_bytes(2, "big")
+            key[97:99] = min(n, 65535).to_bytes(2, "big")
+            out.append("eap 0 " + (hdr + llc + bytes(key) + body).hex())
+        kind = PARSABLE[len(out) % len(PARSABLE)]
+        els = elem(0, b"ladder") + elem(3, b"\x06")
+        while len(els) + 257 <= n:
+            els += elem(rnd.choice([221, 48, 45, 7, 127]), bytes(rnd.getrandbits(8) for _ in range(255)))
+        els += elem(221, bytes(rnd.getrandbits(8) for _ in range(max(0, min(255, n - len(els) - 2)))))
+        fr = mgmt(kind, rnd, els)
+        out.append("mp 0 " + fr.hex())
+        rt, b = wrap(fr, 2, rnd)
+        out.append("mp %d %s" % (rt, b.hex()))
+        out.append("cls %d %s" % (rt, b.hex()))
+    return out
